@@ -9,11 +9,12 @@ BASE_ENV = {"SFS_ALLOW_STDIN": "1", "RUST_BACKTRACE": "0", "PATH": os.environ.ge
 
 
 class Run:
-    __slots__ = ("argv", "rc", "out", "err", "timed_out", "signal")
+    __slots__ = ("argv", "rc", "out", "err", "timed_out", "signal", "stdin", "env", "kind")
 
-    def __init__(self, argv, rc, out, err, timed_out=False):
+    def __init__(self, argv, rc, out, err, timed_out=False, stdin=None, env=None, kind="release"):
         self.argv, self.rc, self.out, self.err, self.timed_out = argv, rc, out, err, timed_out
         self.signal = -rc if rc is not None and rc < 0 else None
+        self.stdin, self.env, self.kind = stdin, env, kind
 
     @property
     def panicked(self):
@@ -43,9 +44,9 @@ def sfs(args, stdin=None, kind="release", env=None, timeout=30, exe=None, cwd=No
         p = subprocess.run(argv, input=stdin if stdin is not None else b"", stdout=subprocess.PIPE,
                            stderr=subprocess.PIPE, env=e, timeout=timeout, cwd=cwd,
                            preexec_fn=_limit_as(mem_limit) if mem_limit else None)
-        return Run(argv[1:], p.returncode, p.stdout, p.stderr)
+        return Run(argv[1:], p.returncode, p.stdout, p.stderr, stdin=stdin, env=env, kind=kind)
     except subprocess.TimeoutExpired as t:
-        return Run(argv[1:], None, t.stdout or b"", t.stderr or b"", timed_out=True)
+        return Run(argv[1:], None, t.stdout or b"", t.stderr or b"", timed_out=True, stdin=stdin, env=env, kind=kind)
 
 
 def pipeline(stages, stdin=None, kind="release", timeout=30):
